@@ -9,6 +9,7 @@ pub mod oracle;
 pub mod panic;
 pub mod prefee;
 pub mod xrate;
+pub mod tx;
 
 pub fn lookup(name: &str) -> Option<fn(&str) -> String> {
     Some(match name {
@@ -24,6 +25,10 @@ pub fn lookup(name: &str) -> Option<fn(&str) -> String> {
         "config" => config::run,
         "cfgsim" => cfgsim::run,
         "auth" => auth::run,
+        "txconsts" => tx::run_consts,
+        "txval" => tx::run_val,
+        "txsim" => tx::run_sim,
+        "txend" => tx::run_end,
         _ => return None,
     })
 }
